@@ -704,54 +704,92 @@ func shortFile(s string) string {
 func c17r5(c *an.Ctx) {
 	pk := genPkg(c)
 	n := 0
+	protoNamed := func(e ast.Expr, name string) bool {
+		t := pk.TypesInfo.TypeOf(e)
+		if t == nil {
+			return false
+		}
+		if p, ok := t.(*types.Pointer); ok {
+			t = p.Elem()
+		}
+		nt, ok := t.(*types.Named)
+		return ok && nt.Obj().Name() == name && nt.Obj().Pkg() != nil && strings.HasSuffix(nt.Obj().Pkg().Path(), "protogen")
+	}
+	// which name does a `.GoName` selector read: "service" (of a method's parent), "method", or ""
+	goNameOf := func(sel *ast.SelectorExpr) string {
+		if sel.Sel.Name != "GoName" {
+			return ""
+		}
+		switch {
+		case protoNamed(sel.X, "Method"):
+			return "method"
+		case protoNamed(sel.X, "Service"):
+			return "service"
+		}
+		return ""
+	}
 	for _, f := range pk.Syntax {
 		for _, d := range f.Decls {
 			fd, ok := d.(*ast.FuncDecl)
 			if !ok || fd.Body == nil {
 				continue
 			}
-			src := ""
-			ast.Inspect(fd.Body, func(x ast.Node) bool {
-				if r, ok := x.(*ast.ReturnStmt); ok && len(r.Results) == 1 {
-					src = exprString(r.Results[0])
-				}
-				return true
-			})
-			if !(strings.Contains(src, "method.Parent.GoName") && strings.Contains(src, "method.GoName")) {
-				continue
-			}
-			n++
-			// every occurrence of either name must be the first argument of strings.ReplaceAll(_, "_", "__")
-			okAll := true
-			ast.Inspect(fd.Body, func(x ast.Node) bool {
-				sel, ok := x.(*ast.SelectorExpr)
-				if !ok || sel.Sel.Name != "GoName" {
-					return true
-				}
-				s := exprString(sel)
-				if s != "method.Parent.GoName" && s != "method.GoName" {
-					return true
-				}
-				escaped := false
-				ast.Inspect(fd.Body, func(y ast.Node) bool {
-					call, ok := y.(*ast.CallExpr)
-					if !ok || exprString(call.Fun) != "strings.ReplaceAll" || len(call.Args) != 3 {
+			// outermost string concatenations of the function
+			var chains []*ast.BinaryExpr
+			var visit func(x ast.Node, inChain bool)
+			visit = func(root ast.Node, inChain bool) {
+				ast.Inspect(root, func(x ast.Node) bool {
+					be, ok := x.(*ast.BinaryExpr)
+					if !ok || be.Op != token.ADD || x == root {
 						return true
 					}
-					a1, _ := strLit(pk, call.Args[1])
-					a2, _ := strLit(pk, call.Args[2])
-					if call.Args[0] == ast.Expr(sel) && a1 == "_" && a2 == "__" {
-						escaped = true
+					if !inChain {
+						chains = append(chains, be)
+					}
+					visit(be, true)
+					return false
+				})
+			}
+			visit(fd.Body, false)
+			for _, ch := range chains {
+				var names []*ast.SelectorExpr
+				kinds := map[string]bool{}
+				ast.Inspect(ch, func(x ast.Node) bool {
+					if sel, ok := x.(*ast.SelectorExpr); ok {
+						if k := goNameOf(sel); k != "" {
+							names = append(names, sel)
+							kinds[k] = true
+						}
 					}
 					return true
 				})
-				if !escaped {
-					okAll = false
+				if !(kinds["service"] && kinds["method"]) {
+					continue
 				}
-				return true
-			})
-			c.Check(okAll, fmt.Sprintf("%s | service and method names are escaped before being joined with '_'", fd.Name.Name), c.P.Pos(fd.Pos()), "",
-				"the helper joins the service's and the method's Go names with '_' without escaping '_' inside them: services Foo{Bar_Baz} and Foo_Bar{Baz} in one package generate the same type name and the file does not compile")
+				n++
+				// every occurrence of either name must be the first argument of strings.ReplaceAll(_, "_", "__")
+				okAll := true
+				for _, sel := range names {
+					escaped := false
+					ast.Inspect(ch, func(y ast.Node) bool {
+						call, ok := y.(*ast.CallExpr)
+						if !ok || exprString(call.Fun) != "strings.ReplaceAll" || len(call.Args) != 3 {
+							return true
+						}
+						a1, _ := strLit(pk, call.Args[1])
+						a2, _ := strLit(pk, call.Args[2])
+						if call.Args[0] == ast.Expr(sel) && a1 == "_" && a2 == "__" {
+							escaped = true
+						}
+						return true
+					})
+					if !escaped {
+						okAll = false
+					}
+				}
+				c.Check(okAll, fmt.Sprintf("%s | service and method names are escaped before being joined with '_'", fd.Name.Name), c.P.Pos(ch.Pos()), "",
+					"the helper joins the service's and the method's Go names with '_' without escaping '_' inside them: services Foo{Bar_Baz} and Foo_Bar{Baz} in one package generate the same type name and the file does not compile")
+			}
 		}
 	}
 	c.Floor("helpers joining service and method names", 1, n)
